@@ -315,5 +315,13 @@ def run(ctx):
         e = list(ex(ver, b'https://example.com/big', b'GET', [], 200, [(b'Content-Type', [b'text/html'])], b'', b''))
         e[7] = f'rep:ab:{n_}'
         big.append(f'sxg.rt.sign {exs(e)} 16384 {keys[0]["cert"]} {keys[0]["key"]} {hexs(certurl)} {hexs(vurl)} {date} {expires} {keys[0]["chain"]} {date + 10}')
-    for op, r in zip(big, ctx.go(big)):
-        ctx.records.append((' '.join(op.split(' ')[:3]) + ' ... ' + op.split(' ')[8], r or 'crash', 'same'))
+    goenv = ctx.goenv      # ~0.5 s per op on an idle machine; a loaded or freshly restored machine must not turn the watchdog into a verdict
+    ctx.goenv = dict(goenv, VERIF_OP_TIMEOUT_MS=str(max(60000, int(goenv.get('VERIF_OP_TIMEOUT_MS', '4000')))))
+    try:
+        rbig = ctx.go(big)
+    finally:
+        ctx.goenv = goenv
+    for op, r in zip(big, rbig):
+        label = ' '.join(op.split(' ')[:3]) + ' ... ' + op.split(' ')[8]
+        ctx.full_op[label] = op; ctx.confirm_ms[label] = 600000
+        ctx.records.append((label, r or 'crash', 'same'))
